@@ -342,6 +342,22 @@ impl AlternateTime {
     }
 }
 
+#[cfg(feature = "verif-hooks")]
+impl AlternateTime {
+    /// The rule days and times (verification accessor). A day is `(form, a, b, c)` with form
+    /// 0 = `Jn` (a = n), 1 = zero-based `n` (a = n), 2 = `Mm.w.d` (a, b, c = month, week, day).
+    pub(super) fn verif_days(&self) -> ((u8, u16, u8, u8), i32, (u8, u16, u8, u8), i32) {
+        fn day(d: &RuleDay) -> (u8, u16, u8, u8) {
+            match *d {
+                RuleDay::Julian1WithoutLeap(n) => (0, n, 0, 0),
+                RuleDay::Julian0WithLeap(n) => (1, n, 0, 0),
+                RuleDay::MonthWeekday { month, week, week_day } => (2, month as u16, week, week_day),
+            }
+        }
+        (day(&self.dst_start), self.dst_start_time, day(&self.dst_end), self.dst_end_time)
+    }
+}
+
 /// Parse time zone name
 fn parse_name<'a>(cursor: &mut Cursor<'a>) -> Result<&'a [u8], Error> {
     match cursor.peek() {
